@@ -43,8 +43,17 @@ type c19Arming struct {
 }
 
 type c19Read struct {
-	h, v uint64
-	at   time.Time
+	h, v  uint64
+	began time.Time // taken before the receive was attempted
+	at    time.Time
+}
+
+// c19Stop: an explicit Stop() call: when it returned, which pair it ended, and when the next Register call started (zero: never).
+type c19Stop struct {
+	h, v  uint64
+	had   bool // a pair was armed when Stop was called
+	at    time.Time
+	until time.Time
 }
 
 func runC19b(c c19bCase) (v *ev.Violation, missed bool, nearExpiry bool) {
@@ -79,18 +88,20 @@ func runC19b(c c19bCase) (v *ev.Violation, missed bool, nearExpiry bool) {
 				case <-time.After(1500 * time.Microsecond):
 				}
 			}
+			began := time.Now()
 			select {
 			case <-stop:
 				return
 			case t := <-tr.ElectionChannel():
 				mu.Lock()
-				reads = append(reads, c19Read{uint64(t.Hv.Height()), uint64(t.Hv.View()), time.Now()})
+				reads = append(reads, c19Read{uint64(t.Hv.Height()), uint64(t.Hv.View()), began, time.Now()})
 				mu.Unlock()
 			case <-time.After(300 * time.Microsecond):
 			}
 		}
 	}()
 	var armings []*c19Arming
+	var stops []*c19Stop
 	var active *c19Arming
 	cb := func(h primitives.BlockHeight, v primitives.View, _ interfaces.OnElectionCallback) {}
 	endActive := func() {
@@ -107,6 +118,9 @@ func runC19b(c c19bCase) (v *ev.Violation, missed bool, nearExpiry bool) {
 				continue
 			}
 			a := &c19Arming{h: op.H, v: op.V, before: time.Now(), timeout: tr.CalcTimeout(primitives.View(op.V))}
+			if n := len(stops); n > 0 && stops[n-1].until.IsZero() {
+				stops[n-1].until = a.before
+			}
 			tr.RegisterOnElection(primitives.BlockHeight(op.H), primitives.View(op.V), cb)
 			a.after = time.Now()
 			if active != nil {
@@ -122,7 +136,13 @@ func runC19b(c c19bCase) (v *ev.Violation, missed bool, nearExpiry bool) {
 				}
 			}
 		case "stop":
+			st := &c19Stop{}
+			if active != nil {
+				st.h, st.v, st.had = active.h, active.v, true
+			}
 			tr.Stop()
+			st.at = time.Now()
+			stops = append(stops, st)
 			endActive()
 		case "sleep":
 			d := time.Duration(op.Us) * time.Microsecond
@@ -173,6 +193,17 @@ func runC19b(c c19bCase) (v *ev.Violation, missed bool, nearExpiry bool) {
 	// Sound rules (timestamps of reads are taken after the receive, so a read cannot be pinned to one arming of a pair that
 	// was armed several times): per pair, no more triggers than armings; every trigger has an arming of its pair that is
 	// old enough (its timeout, measured from before the Register call, had passed when the trigger was read).
+	// stopping guarantees that no trigger of the old pair is handed out: a receive that was ATTEMPTED only after Stop() had returned
+	// (and before the next Register call started) must not obtain a trigger. (A sender parked on the channel is released by Stop;
+	// the only way the unchanged code can lose this is a timer goroutine preempted between its two selects, which is why the
+	// caller requires the violation to repeat.)
+	for _, r := range reads {
+		for _, st := range stops {
+			if st.had && r.began.After(st.at) && (st.until.IsZero() || r.at.Before(st.until)) && r.h == st.h && r.v == st.v {
+				return viol("trigger-delivered-after-stop", "the trigger for (%d,%d) was handed to a reader that started receiving %v after Stop() had returned", r.h, r.v, r.began.Sub(st.at)), false, nearExpiry
+			}
+		}
+	}
 	type pair struct{ h, v uint64 }
 	nArm, nRead := map[pair]int{}, map[pair]int{}
 	for _, a := range armings {
@@ -234,7 +265,20 @@ func TestC19Trigger(t *testing.T) {
 				c.Ops = append(c.Ops, c19Op{K: "reader", Mode: rapid.SampledFrom([]string{"on", "slow", "off"}).Draw(t, "rmode")})
 			}
 		}
+		if rapid.IntRange(0, 3).Draw(t, "stop-template") == 0 {
+			// the expired trigger is parked on the channel (no reader), then Stop(), then a reader shows up
+			c.Ops = append(c.Ops, c19Op{K: "reader", Mode: "off"}, c19Op{K: "register", H: uint64(rapid.IntRange(4, 6).Draw(t, "th")), V: uint64(rapid.IntRange(0, 1).Draw(t, "tv"))},
+				c19Op{K: "sleep", Rel: true, Us: rapid.IntRange(300, 1500).Draw(t, "parked-for")}, c19Op{K: "stop"}, c19Op{K: "reader", Mode: "on"}, c19Op{K: "sleep", Us: 1500})
+		}
 		v, missed, near := runC19b(c)
+		if v != nil && v.Kind == "trigger-delivered-after-stop" { // counts only if it repeats: three runs in a row
+			for n := 1; n < 3 && v != nil; n++ {
+				if v2, _, _ := runC19b(c); v2 == nil || v2.Kind != v.Kind {
+					v = nil
+					col.Inconcl()
+				}
+			}
+		}
 		if missed { // a miss counts only if the same case misses on three consecutive runs
 			n := 1
 			for ; n < 3 && missed && v == nil; n++ {
